@@ -574,13 +574,17 @@ def run_lim(res, ast, with_jit=True):
     try:
         f = ast.fn(INPLACE, "execute_in", contains="InplaceInterpreter")
         arm = None
+        # the command dispatch is the byte match with the most arms (nested matches that merely skip text are not it)
+        best = 0
         for m in walk_t(f["node"]["body"], "Match"):
-            for a in m["arms"]:
-                if a["pat"]["t"] == "PLit" and a["pat"]["lit"].get("kind") == "byte" and a["pat"]["lit"]["value"] == ord("]"):
-                    arm = a
+            barms = [a for a in m["arms"] if a["pat"]["t"] == "PLit" and a["pat"]["lit"].get("kind") == "byte"]
+            hit = [a for a in barms if a["pat"]["lit"]["value"] == ord("]")]
+            if hit and len(barms) > best:
+                best, arm = len(barms), hit[0]
         if arm is None:
             raise Missing("in-place interpreter: arm b']'")
-        st = strip_paren(arm["body"])["block"]["stmts"]
+        ab = strip_paren(arm["body"])
+        st = ab["block"]["stmts"] if ab["t"] == "BlockExpr" else [{"t": "ExprStmt", "expr": ab, "semi": False, "sp": ab["sp"]}]
         w = where(INPLACE, arm, "execute_in")
         pcs = [pm.match_expr(l["cond"], "__v_pc < __v_bytes.len()") for l in walk_t(f["node"]["body"], "While")]
         pcs = [b_["__v_pc"] for b_ in pcs if b_]
